@@ -228,9 +228,11 @@ func addSubscription(m *match.Match, s *pb.SubscriptionList, c *matchClient) (re
 		if p == nil {
 			continue
 		}
-		query := prefix
+		// Each query needs its own backing array: the remove function returned
+		// by AddQuery retains it.
+		query := append(make([]string, 0, len(prefix)+1), prefix...)
 		if origin := p.GetOrigin(); s.Prefix.GetOrigin() == "" && origin != "" {
-			query = append(prefix, origin)
+			query = append(query, origin)
 		}
 		query = append(query, path.ToStrings(p, false)...)
 		removes = append(removes, m.AddQuery(query, c))
